@@ -87,16 +87,26 @@ func (u *Unit) ghost(s *State, name string, so Sort) Term {
 // compRanges records, for heap components holding Go integers, the integer type (typing invariant:
 // every value stored in such a component is within the range of its type).
 var compRanges = map[string]intInfo{}
+
+// compRefs: heap components whose values are object identities (typing invariant: every identity stored in
+// the heap was allocated no later than the component version was created).
+var compRefs = map[string]bool{}
 var layoutUnit = NewUnit("layout", ModeInt, nil)
 
 func regRange(name string, t types.Type, suffix string) string {
 	if _, ok := compRanges[name]; ok {
 		return name
 	}
+	if compRefs[name] {
+		return name
+	}
 	defer func() { recover() }()
 	for _, sl := range layoutUnit.Layout(t) {
 		if sl.Suffix == suffix && sl.Int != nil {
 			compRanges[name] = *sl.Int
+		}
+		if sl.Suffix == suffix && sl.Ref {
+			compRefs[name] = true
 		}
 	}
 	return name
@@ -161,11 +171,13 @@ func (u *Unit) MergeStates(sts []*State, label string) *State {
 	// epochs: if the states were havocked differently, untouched components are mixed lazily
 	out.Epoch = sts[0].Epoch
 	out.Mix = sts[0].Mix
+	mixed := false
 	for _, s := range sts {
 		if s.Epoch != out.Epoch {
 			epochCounter++
 			out.Epoch = epochCounter
 			out.Mix = &epochMix{pcs: pcs, sts: sts}
+			mixed = true
 			break
 		}
 	}
@@ -188,6 +200,9 @@ func (u *Unit) MergeStates(sts []*State, label string) *State {
 		return u.Define(name, t)
 	}
 	out.Alloc = mergeTerm("alloc", func(s *State) Term { return s.Alloc })
+	if mixed {
+		u.epochAlloc[out.Epoch] = out.Alloc
+	}
 	// heap
 	keys := map[string]Sort{}
 	for _, s := range sts {
